@@ -53,6 +53,12 @@ HIST_SECOND = ["[1] U [2005]", "([1] U [2005]) O [499]", "([1] O [2005]) X [499]
 LONG = {"quick": [6, 10, 11, 12, 21], "thorough": [6, 7, 8, 9, 10, 11, 12, 13, 16, 20, 21, 22, 31, 33]}
 LONG_OPS = ["U", "O", "X", "UO", "OU", "XU", "UOX"]
 HIST_OPS = ("tree", "async", "valid")
+# two-step histories over DIFFERENT key lists that a hidden memo could confuse: equal when concatenated ('1','23' / '12','3' -
+# also across the key categories), equal as sets but in other positions / with other multiplicities, one a prefix of the other
+CONFUSABLE = [("[1] U [23]", "[12] U [3]"), ("[12] U [3]", "[1] U [23]"), ("[1] U [501]", "[150] O [1]"), ("[150] O [1]", "[1] U [501]"),
+              ("[1] U [11]", "[11] U [1]"), ("[11] O [1]", "[1] O [11] U [111]"), ("[1] O [2] U [3]", "[3] O [2] U [1]"),
+              ("[1] U [1] O [2]", "[1] U [2] O [2]"), ("[2] O [20][901]", "[220] O [901] U [2]"), ("[49] U [9]", "[4] U [99]"),
+              ("[1] U [2]", "[1] U [2] O [3]"), ("[1] U [2] O [3]", "[1] U [2]"), ("[20] U [05]", "[2005] U [5]")]
 SPELLING_EXPRS = ["[01] U [1]", "[007] O [7] U [0501]", "([01] X [1]) O [001]", "[02005] U [2005][0901]", "[0499] O [499] U [00501] U [501]"]
 ORDER_EXPRS = ["[1] U ([2005] O [499])", "([499] X [1]) O [2005] U [501]", "[2005][901] U [1] O [499]", "([1] U [2005]) O ([1] U [499])"]
 
@@ -83,6 +89,9 @@ def plan(tier, seed):
     for f in range(len(HIST_FIRST)):
         for op in HIST_OPS:
             items.append({"fam": "history", "first": f, "op": op, "seed": seed})
+    for c in range(len(CONFUSABLE)):
+        for op in HIST_OPS:
+            items.append({"fam": "confusable", "pair": c, "op": op, "seed": seed})
     # requirement evaluators whose evaluate_<key> coroutines really suspend: ALL completion orders (virtual event loop, E3)
     for e in range(len(ORDER_EXPRS)):
         for perm in range(6):
@@ -219,7 +228,7 @@ def check_history(first, op, a1, second, a2):
     _first_op(first, op, a1)
     vs = check_expr(second, a2)[0]
     for v in vs:
-        v["kind"] = "after-history/" + v["kind"]
+        v["kind"] = f"after-history-{op}/" + v["kind"]
         v["case"] = {"history": [first, op, a1], "expr": second, "assign": a2}
     return vs
 
@@ -368,6 +377,22 @@ def run_item(item):
         finally:
             M.restore()
         r.sample({"expr": expr, "versions": 2})
+        return r
+    if item.get("fam") == "confusable":
+        first, second = CONFUSABLE[item["pair"]]
+        k1 = R3.keys_of(X.parse(first)[2], "rc")
+        for a1 in ([{}] if item["op"] == "valid" else X.assignments(k1)):
+            for a2 in X.assignments(R3.keys_of(X.parse(second)[2], "rc")):
+                vs = check_history(first, item["op"], a1, second, a2)
+                r.evaluations += 1
+                r.states += 1
+                r.transitions += 2
+                r.nontrivial += 1
+                r.stat("confusable_key_list_histories")
+                for v in vs:
+                    r.violation(v["kind"], v["case"], v["expected"], v["observed"], v["msg"])
+        r.traces += 1
+        r.sample({"first": first, "op": item["op"], "second": second})
         return r
     if item.get("fam") == "history":
         first = HIST_FIRST[item["first"]]
